@@ -1,7 +1,4 @@
-use std::{
-    collections::{HashMap, HashSet, LinkedList},
-    mem::take,
-};
+use std::collections::{HashMap, HashSet, LinkedList};
 
 use cosmian_crypto_core::{
     bytes_ser_de::Serializable,
@@ -611,31 +608,43 @@ pub fn full_decaps(
 /// Updates the MSK such that it has at least one secret per right given, and no
 /// secret for rights that are not given. Updates hybridization of the remaining
 /// secrets when required.
+///
+/// The MSK is left unchanged upon error.
 pub fn update_msk(
     rng: &mut impl CryptoRngCore,
     msk: &mut MasterSecretKey,
     rights: HashMap<Right, (EncryptionHint, AttributeStatus)>,
 ) -> Result<(), Error> {
-    let mut secrets = take(&mut msk.secrets);
-    secrets.retain(|r| rights.contains_key(r));
-
-    for (r, (hint, status)) in rights {
-        if let Some((is_activated, coordinate_secret)) = secrets.get_latest_mut(&r) {
-            *is_activated = AttributeStatus::EncryptDecrypt == status;
-            if EncryptionHint::Classic == hint {
-                *coordinate_secret = coordinate_secret.drop_hybridization();
-            }
-        } else {
-            if AttributeStatus::DecryptOnly == status {
+    // Perform all fallible steps before modifying the MSK: check that no new
+    // right is decrypt-only, and generate the secrets of the new rights.
+    let new_secrets = rights
+        .iter()
+        .filter(|(r, _)| !msk.secrets.contains_key(r))
+        .map(|(r, (hint, status))| {
+            if AttributeStatus::DecryptOnly == *status {
                 return Err(Error::OperationNotPermitted(
                     "cannot add decrypt only secret".to_string(),
                 ));
             }
-            let secret = RightSecretKey::random(rng, EncryptionHint::Hybridized == hint)?;
-            secrets.insert(r, (true, secret));
+            let secret = RightSecretKey::random(rng, EncryptionHint::Hybridized == *hint)?;
+            Ok((r.clone(), secret))
+        })
+        .collect::<Result<Vec<_>, Error>>()?;
+
+    msk.secrets.retain(|r| rights.contains_key(r));
+
+    for (r, (hint, status)) in rights {
+        if let Some((is_activated, coordinate_secret)) = msk.secrets.get_latest_mut(&r) {
+            *is_activated = AttributeStatus::EncryptDecrypt == status;
+            if EncryptionHint::Classic == hint {
+                *coordinate_secret = coordinate_secret.drop_hybridization();
+            }
         }
     }
-    msk.secrets = secrets;
+
+    for (r, secret) in new_secrets {
+        msk.secrets.insert(r, (true, secret));
+    }
     Ok(())
 }
 
